@@ -72,12 +72,16 @@ def run(e: Engine, rep: Report):
              'reply.recv(io)} until IndexError')
     rep.rule('F5', 'LmtpClient.rcpttos: appended per RCPT, cleared by '
              'send_data / send_empty_data / rset and by lhlo under 250')
-    rep.not_decided += ['reply parsing under segmentation (C17)',
+    rep.rule('F6', 'IO.recv_reply consumes every line it records: each '
+             'message_lines.append is followed by the consumption of that '
+             'line before the buffer is refilled and rescanned')
+    rep.not_decided += ['byte-level reply round trip (C17)',
                         'what the server actually answers']
     f1(e, rep)
     f2_f3(e, rep)
     f4(e, rep)
     f5(e, rep)
+    f6(e, rep)
     rep.floor('F2', 14, 'command methods')
 
 
@@ -456,3 +460,45 @@ def f5(e: Engine, rep: Report):
                   % meth, reason='self.rcpttos = [] on every path'
                   if code is None else 'reset under %s' % code,
                   loc=ctx.func.loc())
+
+
+
+def f6(e: Engine, rep: Report):
+    ctx = e.method_ctx('slimta.smtp.io.IO', 'recv_reply')
+    g = e.build(ctx, raises=lambda b, n, r: set())
+    where = ctx.func.qname
+    rep.functions.add(where)
+    recs = [n for n in g.nodes if n.kind == 'call' and
+            e.call_name(n) == 'append' and 'line' in
+            ast.unparse(n.ast.func.value)]
+    cons = [n for n in g.of_kind('stmt') if isinstance(n.ast, ast.Assign)
+            and any(path_of(t, n.frame) == 'self.recv_buffer'
+                    for t in n.ast.targets)]
+    refill = [n for n in g.calls() if e.call_name(n) == 'buffered_recv']
+    if not recs or not cons or not refill:
+        rep.error('anchor vanished: record / consume / refill sites in '
+                  'recv_reply')
+        return
+    for r in recs:
+        rep.evaluations += 1
+
+        def step(n, label, st, r=r):
+            if n is r:
+                return 'recorded'
+            if st == 'recorded' and n in cons:
+                return 'consumed'
+            return st
+        pth = dataflow.typestate_witness(
+            g, 'pre', step,
+            lambda n, st: st == 'recorded' and (n in refill or n is g.exit),
+            start=r)
+        rep.check(pth is None, 'F6', where,
+                  'recorded line `%s` is consumed before a refill / return'
+                  % r.text(40),
+                  'a reply line is recorded in message_lines but left in '
+                  'recv_buffer; after the next read the buffer is scanned '
+                  'again from the start and the line is recorded twice '
+                  '(multi-line replies split across reads come back with '
+                  'duplicated text / the next reply is mis-paired)',
+                  loc=r.loc(), reason='recv_buffer advanced past the line',
+                  witness=dataflow.render_path(pth) if pth else None)
